@@ -474,7 +474,7 @@ def introspect_table():
 
 OUT_STREAM = os.path.join(HERE, "..", "lean", "Sfv", "Generated", "StreamCalls.lean")
 
-ALLOWED_STREAM = set(["write_all", "flush", "read_exact", "try_finish"] +
+ALLOWED_STREAM = set(["write_all", "flush", "read_exact", "try_finish", "finish"] +
                      ["%s_%s%d" % (d, t, w) for d in ("read", "write") for t in ("u", "i") for w in (8, 16, 32, 64, 128)] +
                      ["%s_f%d" % (d, w) for d in ("read", "write") for w in (32, 64)])
 
